@@ -161,7 +161,7 @@ func TestChannels(t *testing.T) {
 	results2 := map[string]int{}
 	saved := results
 	results = results2
-	st2 := vsched.Explore(body, vsched.Options{Bound: 2, NoCache: true, NoSleep: true}, func(e *vsched.Execution) bool { return true })
+	st2 := vsched.Explore(body, vsched.Options{Bound: 2, NoCache: true}, func(e *vsched.Execution) bool { return true })
 	t.Logf("nocache stats=%+v results=%v", st2, results2)
 	for k := range results2 {
 		if saved[k] == 0 {
